@@ -101,6 +101,14 @@ CLAIMED = {
                      "(AP non-decreasing in the cumulative TP weights for the rank-indexed definition).",
                 note="The identification of Ap's computed area with the rank-indexed sum is bounded (exhaustive rankings up to length 5/6 on the real Ap, replay/C08.py), "
                      "as is the scene-level check; induction itself is the meta-level step.", ref="5/C08"),
+    "C06": dict(text="The formulas of the matching scores are verified on the real code for all inputs: distance_points / distance_points_bev / distance_objects(_bev) return the "
+                     "non-negative root of the sum of squared coordinate differences of the centres; _get_height_intersection is the overlap of the two z-intervals (in [0, min height], "
+                     "0 when disjoint); get_volume, _get_volume_intersection and the IoU classes compute I/(A+B-I) and I*H/(V1+V2-I*H) with the stated None/0 cases, BEV IoU in [0,1], "
+                     "0 iff no overlap, 1 for coinciding footprints. Lemmas over those formulas for all reals: 3-D IoU in [0,1] and never above BEV IoU, 1 for identical boxes, "
+                     "symmetry given a symmetric intersection, squared centre distance invariant under common rotation + translation.",
+                note="Relative to an assumed shapely contract (intersection area is a function of the two footprints within [0, min area]; footprint area positive) and assumed numpy "
+                     "vector contracts. That the clipped polygon is the true intersection, the rotated footprint, plane distance (numpy argsort / fancy indexing) and 2-D ROIs are "
+                     "decided only by the bounded native harness (independent Sutherland-Hodgman clipper, 400 box pairs + 300 ROI pairs per run). Floats as reals.", ref="5/C06"),
     "C19": dict(text="The per-object status tallies are verified for all lists of frame results: GroundTruthStatus.__init__ (five new, separate, empty lists), add_status "
                      "(the frame number goes to `total` and to exactly the list of its status), get_object_status (nested loops over the four pass/fail lists with "
                      "loop invariants over ghost counts: for an arbitrary uuid u, an entry exists iff some TP / FP-labelled matched FP / TN / FN item carries u, it is unique, "
@@ -134,7 +142,6 @@ def main():
     json.dump(m, open(os.path.join(HERE, "MANIFEST.json"), "w"), indent=1)
 
 NA = {
- "C06": "IoU exactness is shapely's polygon clipping in floating point: no contract within reach decides it; the range/symmetry clauses relative to an assumed area contract were not built in this session (DESIGN.md section 7)",
  "C07": "decided only as leaf agreements inside C03 (both filters get the frame's transforms), C09 (both frame branches of the APH weight), C10 (ego-relative position through the registry) and C18; the whole-pipeline frame-read audit was not built, so the property is not claimed",
  "C12": "crop_pointcloud is vectorised numpy with a uint8 winding counter; the lifted per-row executor it needs was not built (DESIGN.md section 7)",
  "C16": "the loader is glue around nuscenes-devkit and file I/O; pose semantics and table reading are the devkit's, no contract within reach",
